@@ -514,26 +514,58 @@ def run(ck):
 
     def family(n):
         return re.sub(r"(_n\d|_p\d|_EN|_KG|_gt|_lt|_e1|_def|_f0|_gen|_sph)+$", "", n)
-    used = set()
+    # ---- verdicts: one violation per traced-unit family (with its exact failing input), one summary line for
+    # obligations that could not be re-checked only because a module they import no longer builds
+    def witness_for(thm):
+        for n in sorted(found, key=len, reverse=True):
+            if thm.startswith(n) or n.startswith(thm) or (family(n) and thm.startswith(family(n))):
+                return n
+        if thm.startswith("MT_eq_HS"):
+            for n in found:
+                if n.startswith(("SphMT", "HS3_n2")):
+                    return n
+        return None
+    reported = set()
     if not res.ok:
-        def search(fl):
-            thm = fl.get("theorem") or ""
-            for n in sorted(found, key=len, reverse=True):
-                if thm.startswith(n) or n.startswith(thm) or (family(n) and thm.startswith(family(n))):
-                    used.add(n)
-                    return found[n]
-            if thm.startswith("MT_eq_HS"):
-                for n in found:
-                    if n.startswith(("SphMT", "HS3_n2")):
-                        used.add(n)
-                        return found[n]
-            return None
-        ck.lean_violations(res, search)
+        for (f_, i_, line) in res.forbidden:
+            ck.violation("audit:" + f_, "forbidden construct in proof sources: %s:%d: %s" % (f_, i_, line),
+                         {"file": f_, "line": i_, "text": line}, False)
+        for (n, ax) in res.bad_axioms:
+            ck.violation("axioms:" + n, "theorem %s depends on non-whitelisted axioms %s" % (n, ax), {"theorem": n, "axioms": ax}, False)
+        real = [fl for fl in res.failed if fl.get("file") != "audit" and fl.get("line", 0) > 0]
+        groups, rest = {}, []
+        for fl in (real or res.failed):
+            w = witness_for(fl.get("theorem") or "")
+            if w and fl in real:
+                groups.setdefault(family(w), (w, []))[1].append(fl)
+            else:
+                rest.append(fl)
+        for fam, (w, fls) in groups.items():
+            reported.add(fam)
+            names = [fl.get("theorem") for fl in fls]
+            ck.violation("thm:" + fam, "%d theorem(s) about %s no longer check against the definitions regenerated from the current "
+                         "sources (%s); the traced code differs from the reference at an exact input" % (len(fls), fam, ", ".join(names[:6]) + (" ..." if len(names) > 6 else "")),
+                         {"broken_obligations": fls, "failing_input": found[w], "lake_log_tail": res.log[-1500:]}, True)
+        unrelated = [fl for fl in rest if fl in real]
+        for fl in unrelated:
+            ck.violation("thm:%s" % fl.get("theorem"), "theorem %s no longer checks (%s)" % (fl.get("theorem"), fl.get("msg", "")[:120]),
+                         {"broken_obligation": fl, "lake_log_tail": res.log[-1500:]}, False)
+        if not groups and not unrelated:
+            ck.violation("lean:build", "the Lean build / audit failed without a located error (%d obligations not re-checked)" % len(res.failed),
+                         {"failed": res.failed[:20], "lake_log_tail": res.log[-1500:]}, False)
+        else:
+            skipped = len(res.failed) - len(real)
+            if skipped:
+                ck.notes.append("%d further obligations were not re-checked because a module they import no longer builds" % skipped)
+    fams = {}
     for n, r in found.items():
-        if n in used:
-            continue
-        ck.violation("exact:" + n, "traced unit %s (current sources) disagrees with its closed-form reference at an exact rational "
-                     "input: output %s = %s, expected %s" % (n, r["output"], r["code_value"], r["spec_value"]), r, True)
+        if family(n) not in reported:
+            fams.setdefault(family(n), []).append(n)
+    for fam, ns in fams.items():
+        r = found[ns[0]]
+        ck.violation("exact:" + fam, "traced unit %s (current sources) disagrees with its closed-form reference at an exact rational "
+                     "input: output %s = %s, expected %s (%d unit(s) of this family differ)" % (ns[0], r["output"], r["code_value"], r["spec_value"], len(ns)),
+                     dict(r, units=ns), True)
     if ck.tier == "thorough" and res.ok:
         for m, log in ck.leanchecker(PROPS):
             ck.violation("leanchecker:" + m, "leanchecker rejects " + m, {"log": log}, False)
